@@ -263,6 +263,30 @@ func (s *Solver) CheckInt(asserts []*Term, timeoutMs int) (Result, string) {
 	for _, t := range asserts {
 		rec(t)
 	}
+	// the integer rendering pays off for arithmetic slices only; wide terms
+	// (hash pre-images) stay with the bit-vector solvers
+	wide := false
+	var chk func(t *Term)
+	seenW := map[int]bool{}
+	chk = func(t *Term) {
+		if seenW[t.ID] || wide {
+			return
+		}
+		seenW[t.ID] = true
+		if t.W > 129 {
+			wide = true
+			return
+		}
+		for _, a := range t.Args {
+			chk(a)
+		}
+	}
+	for _, t := range asserts {
+		chk(t)
+	}
+	if wide {
+		return Unknown, "wide terms"
+	}
 	all := append([]*Term{}, asserts...)
 	for i := range apps {
 		for j := 0; j < i; j++ {
